@@ -45,6 +45,10 @@ CLAIMED["C21"] = dict(engine="E2", technique="contracts over textbook elasticity
     text="Proof over the reals for all admissible constants: the six moduli conversions and their round trips, computeLambda/computeMu, computeIsotropicStiffnessTensor (= Hooke's law, symmetric, positive definite, moduli recovered by computeKGModuli/computeKappaMu, accepted by isIsotropic for any eps>0), "
          "the 3D orthotropic tensor (= inverse of the engineering compliance) and, for all 7 modelling hypotheses x {UNALTERED, ALTERED}, the isotropic and orthotropic tensors equal the sub-block / plane-stress condensation of the 3D tensor. One known finding (AxisymmetricalGeneralisedPlaneStress ALTERED) is listed in known_findings.txt.",
     note=TB_E2 + " DEFAULT axes convention only (PIPE/PLATE: C28). Uninitialised tensor entries are invisible to the symbolic scalar (it default-initialises to 0).")
+CLAIMED["C06"] = dict(engine="E2", technique="contracts 'helper output = exact symbolic derivative of the primal function's output' on the unmodified templates instantiated at a symbolic scalar (both sides are real code); SMT (QF_NRA) per clause",
+    text="Proof over the reals, N=1,2,3: computeDeterminantDerivative / SecondDerivative and the deviator-determinant versions (stensor), st2tost2::dsquare, t2tost2::dCdF and dBdF (with C=F^T F, B=F F^T), t2tot2::tpld/tprd, and the tensor determinant first and second derivatives equal the derivative of the corresponding function for every argument. "
+         "Eigen-tensor derivatives, Green-Lagrange and PK1 conversions are not yet under contract.",
+    note=TB_E2 + " vsym's differentiation rules are trusted; derivative obligations have no double-precision replay (no-failing-input-found on failure).")
 
 NOT_APPLICABLE = {
     "C03": "floating-point tolerance statement about iterative eigen-solvers (Jacobi/QL/Cardano with cos/acos); no contract within reach of CBMC-C or the real-arithmetic VC generator expresses it",
